@@ -35,6 +35,7 @@ def run(chk):
     rule_fsm(chk)
     rule_gate(chk)
     rule_eval(chk)
+    rule_cond_eval(chk)
     rule_defined(chk)
 
 
@@ -596,6 +597,119 @@ def rule_eval(chk):
 
 
 # ------------------------------------------------------------------ defined
+# ---- the #if expression evaluator read end to end
+COND_OPS = {"||": (1, lambda a, b: int(a != 0 or b != 0)), "&&": (2, lambda a, b: int(a != 0 and b != 0)), "==": (3, lambda a, b: int(a == b)), "!=": (3, lambda a, b: int(a != b)),
+            "<": (4, lambda a, b: int(a < b)), "<=": (4, lambda a, b: int(a <= b)), ">": (4, lambda a, b: int(a > b)), ">=": (4, lambda a, b: int(a >= b))}
+
+
+def ref_condition(toks):
+    """C semantics for the operator set of the #if evaluator (|| < && < == != < relational < unary !, all binary
+    operators left associative, identifiers are 0). -> value, or raises ValueError for a malformed expression."""
+    pos = [0]
+
+    def peek():
+        return toks[pos[0]] if pos[0] < len(toks) else None
+
+    def unary():
+        t = peek()
+        if t is None:
+            raise ValueError("end")
+        pos[0] += 1
+        if t == "!":
+            return int(unary() == 0)
+        if t == "(":
+            v = binary(1)
+            if peek() != ")":
+                raise ValueError("paren")
+            pos[0] += 1
+            return v
+        if isinstance(t, int):
+            return t
+        if t in ("true", "false"):
+            return int(t == "true")
+        if isinstance(t, str) and t[0].isalpha():
+            return 0
+        raise ValueError("operand %r" % (t,))
+
+    def binary(level):
+        if level > 4:
+            return unary()
+        v = binary(level + 1)
+        while peek() in COND_OPS and COND_OPS[peek()][0] == level:
+            op = toks[pos[0]]
+            pos[0] += 1
+            v = COND_OPS[op][1](v, binary(level + 1))
+        return v
+    v = binary(1)
+    if pos[0] != len(toks):
+        raise ValueError("trailing")
+    return v
+
+
+def rule_cond_eval(chk):
+    """condition_parser::parse walked by the finite-map reader on token lists - every `a op b`, `a op b op c` over
+    {0, 1, 2, identifier} and the eight operators, with `!` and parenthesised operands, and malformed lists - against an
+    independently written evaluator of the same C grammar: same truth value, an error exactly where the expression is
+    malformed. True when readable."""
+    import itertools
+    import interp as I
+    f = chk.facts
+    cp = f.fn("parse", PP, path_contains="condition_parser")
+    if not cp:
+        return False
+    LOC = I.Opaque("loc")
+
+    def tok(t):
+        if isinstance(t, int):
+            ts = [I.Enum("Token", "LiteralInt", {"0": t})]
+        elif t in ("<", ">"):
+            ts = [I.Enum("Token", "LeftAngleBracket" if t == "<" else "RightAngleBracket", {"0": I.Enum("FollowedBy", "Whitespace")})]
+        elif t in ("<=", ">="):
+            ts = [I.Enum("Token", "LeftAngleBracket" if t == "<=" else "RightAngleBracket", {"0": I.Enum("FollowedBy", "Token")}), I.Enum("Token", "Equals")]
+        elif t in ("true", "false"):
+            ts = [I.Enum("Token", "True" if t == "true" else "False")]
+        else:
+            simple = {"||": "VerticalBarVerticalBar", "&&": "AmpersandAmpersand", "==": "EqualsEquals", "!=": "ExclamationPointEquals", "!": "ExclamationPoint",
+                      "(": "LeftParen", ")": "RightParen", " ": "Whitespace", "+": "Plus"}
+            ts = [I.Enum("Token", simple[t])] if t in simple else [I.Enum("Token", "Id", {"0": I.Enum("Identifier", None, {"0": t})})]
+        return [I.Enum("PreprocessToken", None, {"0": x, "1": LOC}) for x in ts]
+    operands = [[0], [1], [2], ["X"], ["!", 0], ["!", 2], ["(", 1, "||", 0, ")"], ["(", 0, "&&", 1, ")"], ["true"]]
+    ops = list(COND_OPS)
+    cases = [list(a) for a in operands]
+    for a, b in itertools.product(operands[:6], repeat=2):
+        for o in ops:
+            cases.append(a + [o] + b)
+    for a, b, c in itertools.product(operands[:4], repeat=3):
+        for o1, o2 in itertools.product(ops, repeat=2):
+            cases.append(a + [o1] + b + [o2] + c)
+    cases += [[1, "&&", "(", 0, "||", 1, ")", "&&", 1], ["!", "(", 1, "<", 5, "<=", 1, ">", 0, "<=", 0, ")"], [1, " ", "&&", " ", 1]]
+    malformed = [[], [1, 2], [1, "&&"], ["&&", 1], ["(", 1], [1, ")"], ["(", ")"], [1, "+", 1], ["!"], [1, "<", "=", 1] if False else [1, "==", "==", 1]]
+    ip = I.Interp(f, max_depth=24, extern={})
+    ip.max_loop = 256
+    bad = None
+    n = 0
+    for toks in cases + malformed:
+        n += 1
+        try:
+            want = ("ok", ref_condition([t for t in toks if t != " "]) != 0)
+        except ValueError:
+            want = ("err",)
+        try:
+            r = ip.apply(cp, [[x for t in toks for x in tok(t)], LOC])
+        except I.Unknown as e:
+            if "panicking" in str(e):
+                bad = bad or "`#if %s` aborts (%s)" % (" ".join(map(str, toks)), str(e)[:60])
+                continue
+            return chk.unreadable("C11.eval/model/readable", "condition_parser::parse", e, where(cp))
+        got = ("ok", r.fields["0"]) if isinstance(r, I.Enum) and r.variant == "Ok" else ("err",)
+        if got != want:
+            bad = bad or "`#if %s` is %s, C semantics give %s" % (" ".join(map(str, toks)), "taken" if got == ("ok", True) else "not taken" if got[0] == "ok" else "an error",
+                                                                  "taken" if want == ("ok", True) else "not taken" if want[0] == "ok" else "an error")
+    chk.ob("C11.eval/model", bad is None, "%d conditions (one to three operands, eight operators, !, parentheses, malformed ones): same verdict as an independent evaluator" % n
+           if bad is None else bad, where(cp), sample={"conditions": n})
+    chk.floor("C11.floor/conditions", n, 4000, "conditions evaluated", where(cp))
+    return True
+
 
 def rule_defined(chk):
     f = chk.facts
